@@ -293,6 +293,18 @@ pub fn layer(rng: &mut Rng, spec: &TreeSpec) -> LayerSpec {
         0..=2 => LayerSpec::NotText(negation(rng, spec)),
         3 => LayerSpec::NotGlob(negation(rng, spec)),
         4 => {
+            if rng.chance(1, 2) && !spec.dirs().is_empty() {
+                // An exhaustive and a nonexhaustive pattern that both match the same directory.
+                let dirs = spec.dirs();
+                let d = rng.pick(&dirs).clone();
+                let name = d.rsplit('/').next().unwrap_or("a").to_string();
+                let e = wax::escape(&name).to_string();
+                let first: String = name.chars().take(1).collect();
+                let pair = vec![format!("**/{}/**", e), format!("**/{}*", wax::escape(&first))];
+                if pair.iter().all(|p| Glob::new(p).is_ok()) {
+                    return if rng.chance(1, 2) { LayerSpec::NotAny(pair) } else { LayerSpec::NotAny(vec![pair[1].clone(), pair[0].clone()]) };
+                }
+            }
             let n = rng.range(1, 3);
             LayerSpec::NotAny((0..n).map(|_| negation(rng, spec)).collect())
         },
